@@ -11,11 +11,14 @@ import SpVerif.Drive.Callables
 import SpVerif.Drive.Fields
 import SpVerif.Drive.Subclass
 import SpVerif.Drive.Serial
+import SpVerif.Drive.Defaults
+import SpVerif.Drive.Annot
+import SpVerif.Drive.Merge
 open Lean SpVerif.Drive
 
 /-- every op of every per-property driver module: add `++ <module>Ops` here -/
 def allOps : List (String × (Json → R Json)) :=
-  namingOps ++ conflictsOps ++ replaceOps ++ docScanOps ++ engineOps ++ callablesOps ++ fieldsOps ++ subclassOps ++ serialOps
+  namingOps ++ conflictsOps ++ replaceOps ++ docScanOps ++ engineOps ++ callablesOps ++ fieldsOps ++ subclassOps ++ serialOps ++ defaultsOps ++ annotOps ++ mergeOps
 
 def dispatch (op : String) (c : Json) : R Json :=
   match allOps.lookup op with
